@@ -154,7 +154,8 @@ prop(
                          dict(name="c06file", pkg="c06", test="TestC06FileCleanups", access=[WORKERS_ACCESS, RUN_ACCESS], timeout_quick=300, timeout_thorough=3000),
                          dict(name="c06teardown", pkg="c06", test="TestC06FileTeardown", access=[WORKERS_ACCESS, RUN_ACCESS], timeout_quick=300, timeout_thorough=3000),
                          dict(name="c06slowsetup", pkg="c06", test="TestC06SlowSetup", access=[WORKERS_ACCESS, RUN_ACCESS], timeout_quick=300, timeout_thorough=3000),
-                         dict(name="c06stageup", pkg="c06", test="TestC06StageComingUp", access=[WORKERS_ACCESS, RUN_ACCESS], timeout_quick=300, timeout_thorough=3000)],
+                         dict(name="c06stageup", pkg="c06", test="TestC06StageComingUp", access=[WORKERS_ACCESS, RUN_ACCESS], timeout_quick=300, timeout_thorough=3000),
+                         dict(name="c06many", pkg="c06", test="TestC06ManySetupCleanups", access=[WORKERS_ACCESS, RUN_ACCESS], timeout_quick=300, timeout_thorough=3000)],
     rule="generated scenario programs (cleanup tables of 0-5 cleanups that log, fail, panic or register; bodies/setups of 0-7 actions: register, Fail/Error/Errorf, "
          "FailNow/Fatal/Fatalf/require, panic with error/runtime error/string/int/struct, marks) executed (a) by the real ActiveScenario.Setup/Run on one worker handle, "
          "event log and per-iteration recorded outcome compared exactly with the model; (b) through whole Run.Do runs (users/constant x limit/duration/cancel) for the setup/teardown "
